@@ -37,7 +37,9 @@ func NewImage(size uint64) *Image { return &Image{Blocks: make([][]byte, size)} 
 //go:norace
 func (im *Image) Clone() *Image {
 	n := &Image{Blocks: make([][]byte, len(im.Blocks))}
-	copy(n.Blocks, im.Blocks)
+	for i := range im.Blocks {
+		n.Blocks[i] = im.Blocks[i]
+	}
 	return n
 }
 
@@ -115,7 +117,11 @@ func (d *Disk) read(a uint64) []byte {
 	d.Reads++
 	out := make([]byte, BlockSize)
 	if b := d.img.Blocks[a]; b != nil {
-		copy(out, b)
+		// manual loop: the copy builtin goes through runtime.slicecopy, which
+		// is race-instrumented regardless of go:norace
+		for i := 0; i < BlockSize; i++ {
+			out[i] = b[i]
+		}
 	}
 	return out
 }
@@ -124,7 +130,7 @@ func (d *Disk) Read(a uint64) []byte { return d.read(a) }
 
 func (d *Disk) ReadTo(a uint64, b []byte) {
 	x := d.read(a)
-	copy(b, x)
+	copy(b, x) // x is private; the write to the caller's buffer is meant to be visible
 }
 
 // touch makes the caller's buffer access visible to the race detector (a real
@@ -139,11 +145,14 @@ func touch(v []byte) byte {
 
 var sink byte
 
+//go:norace
+func setSink(b byte) { sink ^= b }
+
 func (d *Disk) Write(a uint64, v []byte) {
 	if len(v) != BlockSize {
 		panic("simdisk: write of a buffer that is not one block")
 	}
-	sink ^= touch(v[:1]) ^ touch(v[len(v)-1:])
+	setSink(touch(v[:1]) ^ touch(v[len(v)-1:]))
 	if d.Yield {
 		simrt.Yield()
 	}
@@ -163,7 +172,9 @@ func (d *Disk) write(a uint64, v []byte) {
 	}
 	d.Writes++
 	c := make([]byte, BlockSize)
-	copy(c, v)
+	for i := 0; i < BlockSize; i++ {
+		c[i] = v[i]
+	}
 	h := hashBlock(a, c)
 	d.img.Blocks[a] = c
 	d.Trace = append(d.Trace, Ev{Kind: EvWrite, Blk: a, Data: c, Hash: h, Step: simrt.Steps()})
